@@ -3,6 +3,7 @@ package engs
 import (
 	"fmt"
 	"sort"
+	"strings"
 
 	"verif/harness/internal/core"
 )
@@ -60,7 +61,7 @@ func (s *Shrinker) Seed(r *Result) {
 		return
 	}
 	for _, b := range r.Val.Bad {
-		if b.K != s.obsKind {
+		if b.K != s.obsKind || strings.HasPrefix(b.Law, "DRIFT") {
 			continue
 		}
 		cs := r.ByID[b.ID]
